@@ -90,7 +90,20 @@ def modelOp (l : String) : String :=
   | ["elfbuildid", s] => render (elfBuildIdFromStr (hexBytes s)) (fun bs => s!"ok {natsHex bs}") (fun _ => "err")
   | ["specialpath", s] => render (specialPath (hexBytes s)) showPath (fun _ => "err")
   | ["symindex", ok, d] =>
-    render (parseSymindex (hexBytes d) (ok == "1"))
+    -- the panic kernel (error kinds; module-info parse = oracle bit) and, independently of that bit, the
+    -- byte-exact parser of `Model/BreakpadIndex.lean` (module-info parse modelled) must agree on acceptance
+    -- and on the four counts
+    let bs := hexBytes d
+    let r := parseSymindex bs (ok == "1")
+    let agree : Bool := match r, BP.parseSymindex bs with
+      | .ok i, some ix => i.moduleInfoLen == ix.moduleInfo.length && i.files == ix.files.length
+          && i.inlineOrigins == ix.origins.length && i.symbols == ix.addrs.length
+      | .ok _, none => false
+      | .err _, none => true
+      | .err _, some _ => false
+      | .panic, _ => true
+    if !agree then "models-disagree" else
+    render r
       (fun i => s!"ok {i.moduleInfoLen} {i.files} {i.inlineOrigins} {i.symbols}")
       (fun e => s!"err {showErrKind e}")
   | ["asmreq", a, b] =>
